@@ -29,7 +29,14 @@ func prop(t *rapid.T) {
 	sc := dagen.GenScenario(t, 2, dagen.Params{MinEvents: 30, MaxEvents: 130, Forks: dagen.AnyFork, NonMaxFrames: false})
 	cfgs := cons.Configs()
 	cfg := cfgs[rapid.IntRange(0, len(cfgs)-1).Draw(t, "cfg")]
-	in, err := cons.New(cons.NewEvents(), cfg, idx.Epoch(sc.FirstEpoch), sc.Epochs[0].Ref.Validators(), scen.SealFn(sc))
+	// epoch switches either by the sealing block or (the instance never seals, processes the whole epoch and is
+	// then moved on) by Reset
+	viaReset := rapid.Bool().Draw(t, "switchEpochsByReset")
+	seal := scen.SealFn(sc)
+	if viaReset {
+		seal = nil
+	}
+	in, err := cons.New(cons.NewEvents(), cfg, idx.Epoch(sc.FirstEpoch), sc.Epochs[0].Ref.Validators(), seal)
 	if err != nil {
 		t.Fatalf("bootstrap: %v", err)
 	}
@@ -43,6 +50,11 @@ func prop(t *rapid.T) {
 		}
 		if 3*fw >= ref.Total {
 			beyondThird = true
+		}
+		if viaReset && k > 0 {
+			if err := in.L.Reset(idx.Epoch(ref.Epoch), ref.Validators()); err != nil {
+				t.Fatalf("Reset: %v", err)
+			}
 		}
 		if in.Store.GetEpoch() != idx.Epoch(ref.Epoch) {
 			break // the previous epoch did not seal on this instance (it stopped earlier)
@@ -103,7 +115,17 @@ func prop(t *rapid.T) {
 			break
 		}
 	}
+	// an application that keeps the delivered blocks still reads the same cheater lists at the end
+	for bi, b := range in.Blocks {
+		if fmt.Sprint(b.CheatersRef) != fmt.Sprint(b.Cheaters) {
+			t.Fatalf("block %d (epoch %d frame %d) was delivered with cheaters %v; the delivered list reads %v after later blocks\n%v",
+				bi, b.Epoch, b.Frame, b.Cheaters, b.CheatersRef, scen.DescribeScenario(sc))
+		}
+	}
 	classes := []string{"cfg_" + cfg.Name}
+	if viaReset && len(sc.Epochs) > 1 {
+		classes = append(classes, "epoch_switched_by_reset")
+	}
 	if beyondThird {
 		classes = append(classes, "forkers_ge_third")
 	}
